@@ -202,7 +202,7 @@ func firstDiffClass(a, b string) (string, string) {
 		}
 		desc := fmt.Sprintf("line %d: %q vs %q", i+1, x, y)
 		switch {
-		case reKeyLine.MatchString(x) || strings.Contains(x, "value:"):
+		case reKeyLine.MatchString(x) || strings.Contains(x, "value:") || strings.HasPrefix(strings.TrimSpace(x), "key:"):
 			return "map option entries", desc
 		case reOptLine.MatchString(x) || reFldOpt.MatchString(x):
 			return "option order", desc
@@ -503,14 +503,15 @@ func runC14(cfg *vh.Config) error {
 	{
 		reps := cfg.Scale(56, 160)
 		type printJob struct {
-			Name string
-			F    protoreflect.FileDescriptor
+			Name  string
+			F     protoreflect.FileDescriptor
+			Files map[string]string // sources of a fixed bundle, shown with a failure
 		}
 		var jobs []printJob
 		if fd, err := tieDescriptor(); err != nil {
 			res.Fail(vh.Failure{Case: caseNo, Stream: "print", Sig: "C14 tie descriptor cannot be built (harness)", Clause: "harness expectation", Input: "tieDescriptor", Got: err.Error()})
 		} else {
-			jobs = append(jobs, printJob{"hand-built descriptor tie/v1/tie.proto: message with (j5.ext.v1.psm), (buf.validate.message), (j5.list.v1.message), (j5.list.v1.list_request), (j5.ext.v1.message); service with (j5.ext.v1.service), (j5.messaging.v1.service), (google.api.default_host), (google.api.oauth_scopes); method with (google.api.http), (j5.ext.v1.method), (google.api.method_signature)", fd})
+			jobs = append(jobs, printJob{"hand-built descriptor tie/v1/tie.proto: message with (j5.ext.v1.psm), (buf.validate.message), (j5.list.v1.message), (j5.list.v1.list_request), (j5.ext.v1.message); service with (j5.ext.v1.service), (j5.messaging.v1.service), (google.api.default_host), (google.api.oauth_scopes); method with (google.api.http), (j5.ext.v1.method), (google.api.method_signature)", fd, nil})
 		}
 		psb := protoSourceBundle()
 		pr := runConfig(psb, cfg.Seed, 0)
@@ -519,13 +520,24 @@ func runC14(cfg *vh.Config) error {
 				res.Fail(vh.Failure{Case: caseNo, Stream: "print", Sig: "C14 proto-source bundle does not compile: " + errClass(et), Clause: "harness expectation", Input: psb.Content, Got: et})
 			}
 			for _, f := range pr.Raw[pkg] {
-				jobs = append(jobs, printJob{"bundle with a .proto source: " + f.Path(), f})
+				jobs = append(jobs, printJob{"bundle with a .proto source: " + f.Path(), f, psb.Content})
+			}
+		}
+		// options defined by a .proto of the bundle itself, holding maps of every key kind
+		cob := customOptionBundle()
+		cr := runConfig(cob, cfg.Seed, 0)
+		for _, pkg := range cob.Packages {
+			if et, bad := cr.Errs[pkg]; bad {
+				res.Fail(vh.Failure{Case: caseNo, Stream: "print", Sig: "C14 custom-option bundle does not compile or print: " + errClass(et), Clause: "harness expectation", Input: cob.Content, Got: et})
+			}
+			for _, f := range cr.Raw[pkg] {
+				jobs = append(jobs, printJob{"bundle with options defined in its own .proto (maps of every key kind): " + f.Path(), f, cob.Content})
 			}
 		}
 		for bi, b := range bundles {
 			for _, pkg := range b.Packages {
 				for _, f := range all[bi].Runs[0].Raw[pkg] {
-					jobs = append(jobs, printJob{fmt.Sprintf("bundle %d: %s", bi, f.Path()), f})
+					jobs = append(jobs, printJob{fmt.Sprintf("bundle %d: %s", bi, f.Path()), f, b.Content})
 				}
 			}
 		}
@@ -557,6 +569,9 @@ func runC14(cfg *vh.Config) error {
 		for i, o := range outs {
 			res.Count("print_job")
 			in := map[string]any{"descriptor": jobs[i].Name, "prints": reps}
+			if jobs[i].Files != nil {
+				in["files"] = jobs[i].Files
+			}
 			if o.Pan != "" {
 				res.Fail(vh.Failure{Case: caseNo, Stream: "print", Sig: "C14 printer fails: " + errClass(o.Pan), Clause: "printed text", Input: in, Got: o.Pan})
 			} else if o.Diff != "" {
